@@ -55,8 +55,10 @@ def seal(ctx, layout, ancestor, invocation, order, pats=("*.tmp",)):
         # child references), then a -sf generation
         # ... and a -sf generation that names a FOLDER (its own traversal)
         first_dir = sorted(p for p, c in tree.items() if c is DIR and p not in nested)[:1]
-        steps = [(r, None) for r in nested] + [("", None), ("", None), ("", first_file)] + [("", d) for d in first_dir]
-        for i, (r, sf) in enumerate(steps):
+        # ... and a generation without directory hashes (-n)
+        steps = [(r, None, []) for r in nested] + [("", None, []), ("", None, []), ("", first_file, [])] + [("", d, []) for d in first_dir] + \
+                [("", None, ["-n"])]
+        for i, (r, sf, extra) in enumerate(steps):
             target = os.path.join(root, r) if r else root
             args, cwd = [target], None
             if invocation.startswith("through-symlinked-parent"):
@@ -72,7 +74,7 @@ def seal(ctx, layout, ancestor, invocation, order, pats=("*.tmp",)):
                 args, cwd = [os.path.basename(target)], os.path.dirname(target)
             elif invocation == "dot-from-inside":
                 args, cwd = ["."], target
-            args += ["-h", "md5"]
+            args += ["-h", "md5"] + extra
             if sf is not None:
                 if invocation.endswith("working directory"):
                     cwd = target   # the user stands in the root folder (reached through the link) and names the entry relatively
@@ -206,7 +208,7 @@ def main(tier, seed):
         eng.outcome((case["layout"], "order" if case.get("order") else "location", "viol" if vs else "ok"))
     for c in cases[:: max(1, len(cases) // 6)]:
         eng.sample({"layout": c["layout"], "ancestor": c["ancestor"], "invocation": c["invocation"], "listing": c.get("order") or "sorted"})
-    ncmd = sum(len(c["layout_def"][1]) + 3 + (3 if c.get("verify_copy") else 0) for c in cases)
+    ncmd = sum(len(c["layout_def"][1]) + 5 + (3 if c.get("verify_copy") else 0) for c in cases)
     cov = {"states": len(cases), "transitions": ncmd, "traces_validated_against_impl": ncmd, "exhaustive": True,
            "rule": "layouts {flat, nested siblings A / AB (thorough: + three nested roots incl. a chain, wider flat)} sealed with the "
                    "same names, contents, mtimes, virtual clock and -i *.tmp at <scratch>/<ancestor>/root for ancestor in {plain, "
@@ -214,7 +216,7 @@ def main(tier, seed):
                    "from the parent, '.' from inside}; and under EVERY combination of permutations of the directory listings "
                    "(os.listdir / os.scandir seam) of all directories with <=4 entries, plus a fixed set of 40 (thorough 200) listings that also "
                    "shuffle the entries of every ascmhl folder (enumerated from a seeded generator: an addition, not the deciding part); "
-                   "each scenario seals the nested roots, then the top twice, then a -sf generation; oracle: the ascmhl folders are byte-identical "
+                   "each scenario seals the nested roots, then the top twice, then a -sf generation for a file and one for a folder, then a -n generation; oracle: the ascmhl folders are byte-identical "
                    "to the baseline (plain location, sorted listing); the baseline's sealed tree copied to each location verifies "
                    "(verify, diff, verify -dh exit 0)"}
     return eng.finish(cov, eval_case)
